@@ -11,6 +11,9 @@ def run(rep, tier, seed):
     gen_and_replay(rep, wd, exe, "Gen_C07.tla", "C07_d2", {"Depth": 2}, {"Kinds": "ScopeKinds"})
     if tier == "thorough":
         gen_and_replay(rep, wd, exe, "Gen_C07.tla", "C07_d3", {"Depth": 3}, {"Kinds": "CoreKinds"}, timeout=6000)
+    # F41 (repaired): isset swallowing a failure of an exec'd template without restoring '.' and the yield content
+    asis_refuted(rep, wd, "Gen_C07.tla", "C07_asis_isset", {"Depth": 2, "FixIsSet": "FALSE"}, {"Kinds": "ScopeKinds"},
+                 ("IsSetRestoresState",))
     repo_suite_traces(rep, wd)
     random_program_traces(rep, wd, exe, seed, 1500 if tier == "quick" else 12000, 4 if tier == "quick" else 5)
     rep.exhaustive = True
